@@ -712,7 +712,10 @@ def Engine.handlePubrec (e : Engine) (a : Ack) : Engine × Res :=
         match o.packet with
         | .publish p =>
           if p.qos = 2 then
-            if a.reasonCode ≥ 128 then e.completeSuccess opId (some (.pubrec a.packetId a.reasonCode))
+            if a.reasonCode ≥ 128 then
+              -- the PUBREL of this operation is being written: completing it now would pull the packet from under the encoder
+              if e.current == some opId then (e, .err "ProtocolError")
+              else e.completeSuccess opId (some (.pubrec a.packetId a.reasonCode))
             else
               let e1 := e.setOp { o with pubrel := some (.pubrel { packetId := a.packetId }) }
               (match e1.enqueue opId .high false with
@@ -743,7 +746,10 @@ def Engine.handlePubcomp (e : Engine) (a : Ack) : Engine × Res :=
         match o.packet with
         | .publish p =>
           if p.qos = 2 then
-            if o.pubrel.isSome then e.completeSuccess opId (some (.pubcomp a.packetId a.reasonCode))
+            if o.pubrel.isSome then
+              -- a PUBCOMP before the PUBREL has been completely sent
+              if e.current == some opId then (e, .err "ProtocolError")
+              else e.completeSuccess opId (some (.pubcomp a.packetId a.reasonCode))
             else (e, .err "ProtocolError")
           else (e, .err "ProtocolError")
         | _ => (e, .panic "pending_publish_not_publish@handle_pubcomp")
